@@ -237,6 +237,7 @@ type bvInterp struct {
 	// they may assign is forgotten instead (locals, receiver fields, buffer bytes at or above the lowest offset
 	// they can reach). Used where only a few bytes/fields of a larger function are examined (C09).
 	tolerant bool
+	lastRets []*bvVal // results of the last inlined call (tuple assignments)
 }
 
 func (bi *bvInterp) undec(p *bvPath, pos token.Pos, f string, a ...any) {
@@ -438,6 +439,33 @@ func (bi *bvInterp) stmt(p *bvPath, s ast.Stmt) []*bvPath {
 		return []*bvPath{p}
 	case *ast.AssignStmt:
 		if len(x.Lhs) != len(x.Rhs) {
+			if bi.tolerant && len(x.Rhs) == 1 {
+				if call, ok := unparen(x.Rhs[0]).(*ast.CallExpr); ok {
+					bi.lastRets = nil
+					first := bi.expr(p, call)
+					rets := bi.lastRets
+					bi.lastRets = nil
+					if len(rets) == len(x.Lhs) {
+						for i, l := range x.Lhs {
+							v := rets[i]
+							if v == nil {
+								v = &bvVal{Opaque: "multi"}
+							}
+							bi.assign(p, l, v)
+						}
+						return []*bvPath{p}
+					}
+					// the first result is known, the others are not
+					for i, l := range x.Lhs {
+						if i == 0 && first != nil {
+							bi.assign(p, l, first)
+						} else {
+							bi.assign(p, l, &bvVal{Opaque: "multi"})
+						}
+					}
+					return []*bvPath{p}
+				}
+			}
 			for _, r := range x.Rhs {
 				bi.expr(p, r)
 			}
@@ -1432,6 +1460,7 @@ func (bi *bvInterp) call(p *bvPath, x *ast.CallExpr) *bvVal {
 			target.Sub[k] = v
 		}
 	}
+	bi.lastRets = o.Ret
 	if len(o.Ret) >= 1 && o.Ret[0] != nil {
 		return o.Ret[0]
 	}
